@@ -15,6 +15,7 @@ type Clause struct {
 	E     Expr
 	Text  string
 	Pos   token.Pos
+	Local bool // "exit" clause: an obligation at every return that may mention locals; callers do not see it
 }
 
 type FuncSpec struct {
@@ -28,6 +29,7 @@ type FuncSpec struct {
 	LoopDec   map[int]Clause
 	Modifies  []Expr
 	ModAll    bool
+	GhostMod  []string // ghost variables listed as modifies ghost(x)
 	HasMod    bool
 	Inline    bool
 	Trusted   bool // contract is assumed at call sites, body not verified (listed as assumption)
@@ -113,7 +115,7 @@ func indentOf(s string) int {
 	return n
 }
 
-var clauseKeywords = map[string]bool{"requires": true, "ensures": true, "loop": true, "modifies": true, "property": true,
+var clauseKeywords = map[string]bool{"requires": true, "ensures": true, "exit": true, "loop": true, "modifies": true, "property": true,
 	"inline": true, "tag": true, "safety": true, "trusted": true, "alloc": true, "ghost": true, "let": true, "timeout": true}
 
 func (db *SpecDB) readFile(e *Engine, p *packages.Package, f *ast.File) {
@@ -235,15 +237,15 @@ func (db *SpecDB) parseClause(e *Engine, fs *FuncSpec, cl specLine) {
 		db.errs = append(db.errs, msg)
 	}
 	switch kw {
-	case "requires", "ensures":
+	case "requires", "ensures", "exit":
 		label, body := splitLabel(rest)
 		ex, err := parseExpr(body)
 		if err != nil {
 			fail(err)
 			return
 		}
-		c := Clause{Label: label, E: ex, Text: body, Pos: cl.pos}
-		if kw == "ensures" {
+		c := Clause{Label: label, E: ex, Text: body, Pos: cl.pos, Local: kw == "exit"}
+		if kw != "requires" {
 			// a top-level conjunction becomes one obligation per conjunct (label.k): smaller
 			// goals for the solver and a precise name for whatever fails
 			if parts := conjuncts(ex); len(parts) > 1 {
@@ -251,7 +253,7 @@ func (db *SpecDB) parseClause(e *Engine, fs *FuncSpec, cl specLine) {
 					label = fmt.Sprint(len(fs.Ensures) + 1)
 				}
 				for i, p := range parts {
-					fs.Ensures = append(fs.Ensures, Clause{Label: fmt.Sprintf("%s.%d", label, i+1), E: p, Text: p.String(), Pos: cl.pos})
+					fs.Ensures = append(fs.Ensures, Clause{Label: fmt.Sprintf("%s.%d", label, i+1), E: p, Text: p.String(), Pos: cl.pos, Local: c.Local})
 				}
 				return
 			}
@@ -311,6 +313,16 @@ func (db *SpecDB) parseClause(e *Engine, fs *FuncSpec, cl specLine) {
 			case "heap":
 				fs.ModAll = true
 			default:
+				if strings.HasPrefix(part, "ghost(") && strings.HasSuffix(part, ")") {
+					// ghost(name): the callee may change this ghost variable (and, with any
+					// ghost(...) listed, no other one)
+					n := strings.TrimSpace(part[len("ghost(") : len(part)-1])
+					if i := strings.LastIndex(n, "."); i >= 0 {
+						n = n[i+1:]
+					}
+					fs.GhostMod = append(fs.GhostMod, n)
+					continue
+				}
 				ex, err := parseExpr(part)
 				if err != nil {
 					fail(err)
@@ -531,6 +543,73 @@ func (db *SpecDB) findSpecFunc(pkgPath, name string) *SpecFunc {
 		}
 	}
 	return found
+}
+
+// finalize runs once after all contract files are read. A trusted contract states
+// everything its callee does: when it has no ghost clause and none of its ensures
+// mentions a ghost variable, the callee has no ghost effect (ghost-pure).
+func (db *SpecDB) finalize() {
+	names := map[string]bool{}
+	for _, g := range db.ghosts {
+		names[g.Name] = true
+	}
+	isWord := func(c byte) bool {
+		return c == '_' || (c >= 'a' && c <= 'z') || (c >= 'A' && c <= 'Z') || (c >= '0' && c <= '9')
+	}
+	mentions := func(text string) bool {
+		for i := 0; i < len(text); {
+			if !isWord(text[i]) {
+				i++
+				continue
+			}
+			j := i
+			for j < len(text) && isWord(text[j]) {
+				j++
+			}
+			if names[text[i:j]] {
+				return true
+			}
+			i = j
+		}
+		return false
+	}
+	for _, fs := range db.funcs {
+		if !fs.Trusted || len(fs.Ghost) > 0 || fs.Tags["ghost-pure"] {
+			continue
+		}
+		pure := true
+		for _, cl := range fs.Ensures {
+			if mentions(cl.Text) {
+				pure = false
+			}
+		}
+		if pure {
+			fs.Tags["ghost-pure"] = true
+		}
+	}
+}
+
+// ghostFrame returns the ghost variables (keys "<pkg>::<name>") the contract allows its
+// callee to change; explicit is false when the contract says nothing about ghost state
+// (then every ghost variable may change).
+func (db *SpecDB) ghostFrame(fs *FuncSpec) (keys map[string]bool, explicit bool) {
+	keys = map[string]bool{}
+	if !fs.Tags["ghost-pure"] && len(fs.Ghost) == 0 && len(fs.GhostMod) == 0 {
+		return keys, false
+	}
+	for _, gu := range fs.Ghost {
+		if gv := db.findGhost(fs.PkgPath, gu.Var); gv != nil {
+			keys[gv.PkgPath+"::"+gv.Name] = true
+		}
+	}
+	for _, n := range fs.GhostMod {
+		if gv := db.findGhost(fs.PkgPath, n); gv != nil {
+			keys[gv.PkgPath+"::"+gv.Name] = true
+		} else {
+			db.errs = append(db.errs, fmt.Sprintf("%s: modifies ghost(%s): unknown ghost variable", fs.Key, n))
+		}
+	}
+	return keys, true
 }
 
 func (db *SpecDB) findGhost(pkgPath, name string) *GhostVar {
